@@ -166,6 +166,50 @@ pub fn amt_to_forward_msat(
 	u64::try_from(amt_to_forward).ok()
 }
 
+
+// ---- blinded forwards: constraints and the (amount, expiry) handed downstream ----
+pub struct PaymentConstraints { pub max_cltv_expiry: u32, pub htlc_minimum_msat: u64 }
+pub struct BlindedHopFeatures {}
+impl BlindedHopFeatures {
+    #[verifier::external_body] pub fn empty() -> BlindedHopFeatures { unimplemented!() }
+    #[verifier::external_body] pub fn requires_unknown_bits_from(&self, other: &BlindedHopFeatures) -> bool { unimplemented!() }
+}
+fn check_blinded_payment_constraints(
+	amt_msat: u64, cltv_expiry: u32, constraints: &PaymentConstraints
+) -> (r: Result<(), ()>)
+    ensures
+    r is Ok <==> (amt_msat >= constraints.htlc_minimum_msat && cltv_expiry <= constraints.max_cltv_expiry),
+ {
+	if amt_msat < constraints.htlc_minimum_msat ||
+		cltv_expiry > constraints.max_cltv_expiry
+	{ return Err(()) }
+	Ok(())
+}
+
+fn check_blinded_forward(
+	inbound_amt_msat: u64, inbound_cltv_expiry: u32, payment_relay: &PaymentRelay,
+	payment_constraints: &PaymentConstraints, features: &BlindedHopFeatures
+) -> (r: Result<(u64, u32), ()>)
+    ensures
+    r is Ok ==> ({
+        let (a, c) = r->Ok_0;
+        &&& a > 0 && a as int + relay_fee(a as int, payment_relay) <= inbound_amt_msat
+        &&& c as int + payment_relay.cltv_expiry_delta as int == inbound_cltv_expiry
+        &&& inbound_amt_msat >= payment_constraints.htlc_minimum_msat && inbound_cltv_expiry <= payment_constraints.max_cltv_expiry
+    }),
+ {
+	let amt_to_forward = amt_to_forward_msat(
+		inbound_amt_msat, payment_relay
+	).ok_or(())?;
+	let outgoing_cltv_value = inbound_cltv_expiry.checked_sub(
+		payment_relay.cltv_expiry_delta as u32
+	).ok_or(())?;
+	check_blinded_payment_constraints(inbound_amt_msat, inbound_cltv_expiry, payment_constraints)?;
+
+	if features.requires_unknown_bits_from(&BlindedHopFeatures::empty()) { return Err(()) }
+	Ok((amt_to_forward, outgoing_cltv_value))
+}
+
 }
 fn main() {}
 
